@@ -57,7 +57,23 @@ def gen_cases(rng: random.Random, reps: int):
                     combos.append(
                         dict(style="iterm2", ident=ident, method=method, args=a, rw=rw, rh=rh)
                     )
+    # payloads that are an exact multiple of the 4096-character chunk size (compress=0, RGB,
+    # 8x16 cells: one LINES strip of rw cells is 512*rw base64 characters) and their neighbours
+    exact = []
+    for ident in ("kitty", "konsole"):
+        for method in ("lines", "whole"):
+            for rw, rh in [(8, 1), (8, 2), (16, 1), (7, 2), (9, 1), (24, 1)]:
+                exact.append(dict(style="kitty", ident=ident, method=method, args={"compress": 0},
+                                  rw=rw, rh=rh, fixed=dict(alpha=None, mode="RGB", cell=[8, 16],
+                                                           src=[rw * 8, rh * 16])))
     n = 0
+    for base in exact:
+        c = copy.deepcopy(base)
+        fixed = c.pop("fixed")
+        rw, rh = c.pop("rw"), c.pop("rh")
+        c.update(seed=rng.randrange(1 << 30), fg_bg=(None, None), srckind="pil",
+                 size=["manual", rw, rh], via="renderer", **fixed)
+        yield c
     for base in combos:
         for _ in range(reps):
             n += 1
